@@ -40,6 +40,10 @@ func (tdaw *TrackableDataTrie) RetrieveValue(key []byte) ([]byte, error) {
 	//search in dirty data cache
 	if value, found := tdaw.dirtyData[string(key)]; found {
 		log.Trace("retrieve value from dirty data", "key", key, "value", value)
+		if len(value) == 0 {
+			// the key was deleted in the current dirty batch: it reads as empty, as it will after the batch is saved
+			return nil, nil
+		}
 		return trimValue(value, tailLength)
 	}
 
